@@ -607,6 +607,143 @@ def user_edit_suite(ctx, env):
     ctx.oblige('correspondence:EditUser.post-vs-UserModel.edit_user', ok and bool(reqs))
 
 
+def user_history_suite(ctx, env):
+    """histories of PUT /api/users (add) and POST /api/users/<pk> (edit) by an administrator, and self-service edits by an
+    ordinary account, with names and addresses drawn from a small pool so that they collide: the whole user table after every
+    request against Model/UsersModel.ustep (C15_users_unique: names, addresses and keys stay unique)"""
+    from ..appenv import USERS
+    rng = ctx.rng
+    m = env.models
+    GROUPS = {'userGroup': 2, 'mediaGroup': 4, 'adminGroup': 0x40000000}
+    names = {}
+
+    def nm(text):
+        return names.setdefault(text, len(names) + 1)
+    admin = Actor(env, 'admin')
+    plain = Actor(env, 'user')
+    with env.app.app_context():
+        guest_pk = m.User.get_guest_user().pk
+        admin_pk = m.User.get(username=USERS['admin'][0]).pk
+        user_pk = m.User.get(username=USERS['user'][0]).pk
+    passwords = {}
+    with env.app.app_context():
+        for u in m.User.all():
+            for role in USERS:
+                if u.username == USERS[role][0]:
+                    passwords[u.pk] = USERS[role][2]
+
+    def table():
+        rows = []
+        with env.app.app_context():
+            for u in m.User.all():
+                rows.append((u.pk, u.username, bool(u.must_change), u.email, int(u.groups_mask)))
+        return sorted(rows)
+
+    def model_table(rows):
+        return [[pk, nm('n:' + n), int(mc), nm('e:' + (e or '')), nm('pw:' + passwords.get(pk, '?%d' % pk)), g] for pk, n, mc, e, g in rows]
+    pool_n = ['alice', 'bob', 'carol', USERS['user'][0], USERS['media'][0]]
+    pool_e = ['a@x.test', 'b@x.test', 'c@x.test', USERS['user'][1], USERS['media'][1]]
+    histories = 4 if ctx.quick() else 40
+    reqs, meta = [], []
+    for h in range(histories):
+        start = table()
+        ops, trace, log = [], [], []
+        init = model_table(start)
+        for step in range(rng.randint(6, 12) if ctx.quick() else rng.randint(15, 40)):
+            rows = table()
+            flags = {g: rng.random() < 0.4 for g in GROUPS}
+            gmask = sum(v for g, v in GROUPS.items() if flags[g])
+            pw = rng.choice(['Pw#%d-%d' % (h, step), 'Pw#%d-%d' % (h, step), None])
+            confirm = pw if rng.random() < 0.8 else 'zzz'
+            kind = rng.choice(['add', 'add', 'edit', 'edit', 'edit', 'self'])
+            if kind == 'add':
+                body = {'username': rng.choice(pool_n), 'email': rng.choice(pool_e), 'password': pw or 'Fixed#1', 'confirmPassword': confirm or 'Fixed#1',
+                        'mustChange': rng.random() < 0.5}
+                body.update(flags)
+                r = admin.c.put('/api/users', json=body, headers=admin.headers())
+                log.append('PUT /api/users %s %s -> %d' % (body['username'], body['email'], r.status_code))
+                now = table()
+                new = [x for x in now if x[0] not in [y[0] for y in rows]]
+                pk = new[0][0] if new else max([x[0] for x in now] + [0]) + 1
+                if new:
+                    passwords[pk] = body['password']
+                ops.append([0, pk, nm('n:' + body['username']), nm('e:' + body['email']), nm('pw:' + body['password']), nm('pw:' + body['confirmPassword']),
+                            gmask, int(body['mustChange'])])
+            else:
+                cands = [x for x in rows if x[0] not in (guest_pk, admin_pk)]
+                if kind == 'self':
+                    actor, caller, target = plain, user_pk, user_pk
+                    tgt = [x for x in rows if x[0] == user_pk]
+                    if not tgt:
+                        continue
+                    tgt = tgt[0]
+                else:
+                    if not cands:
+                        continue
+                    tgt = rng.choice(cands)
+                    actor, caller, target = admin, admin_pk, tgt[0]
+                new_name = rng.choice(pool_n + [tgt[1], tgt[1]])
+                if target == user_pk:
+                    new_name = tgt[1]             # renaming the account behind the second client would invalidate its token
+                # an earlier step may have made the ordinary account an administrator: then its own edit is an administrator's
+                caller_is_admin = kind != 'self' or (tgt[4] & 0x40000000) == 0x40000000
+                body = {'username': new_name, 'email': rng.choice(pool_e + [tgt[3], tgt[3]]), 'mustChange': rng.random() < 0.5,
+                        'password': pw, 'confirmPassword': confirm if pw else ''}
+                body.update(flags)
+                r = actor.c.post('/api/users/%d' % target, json=body, headers=actor.headers())
+                log.append('POST /api/users/%d by %s name=%s email=%s pw=%s/%s -> %d' % (target, 'admin' if kind != 'self' else 'self', body['username'], body['email'],
+                                                                                         pw, body['confirmPassword'], r.status_code))
+                # which password does the account accept now?
+                if pw:
+                    with env.app.app_context():
+                        u = m.User.get(pk=target)
+                        if u is not None and u.check_password(pw):
+                            passwords[target] = pw
+                ops.append([1, int(caller_is_admin), caller, target, nm('n:' + body['username']), int(body['mustChange']), nm('e:' + body['email']),
+                            [nm('pw:' + pw)] if pw else [], nm('pw:' + (confirm if pw else '')), gmask])
+            ctx.count('http:user-history')
+            if r.status_code >= 500:
+                ctx.violation('user history %d, step %d: %s' % (h, step + 1, log[-1]), {'history': list(log)})
+            trace.append(model_table(table()))
+        reqs.append([10, init, ops])
+        meta.append((h, log, trace))
+        # remove the accounts this history created (the next one starts from the built-in three)
+        with env.app.app_context():
+            for u in m.User.all():
+                if u.pk not in [x[0] for x in start]:
+                    m.db.session.delete(u)
+            m.db.session.flush()
+            for pk, n, mc, e, g in start:          # two phases: the old names may be held by one another at the moment
+                u = m.User.get(pk=pk)
+                if u is not None:
+                    u.username, u.email = 'tmp-%d' % pk, 'tmp-%d@x.test' % pk
+            m.db.session.flush()
+            for pk, n, mc, e, g in start:
+                u = m.User.get(pk=pk)
+                if u is not None:
+                    u.username, u.must_change, u.email, u.groups_mask = n, mc, e, g
+                    for role in USERS:
+                        if n == USERS[role][0]:
+                            u.set_password(USERS[role][2])
+                            passwords[pk] = USERS[role][2]
+            m.db.session.commit()
+    res = common.run_model_parallel(15, reqs)
+    ok = True
+    for (h, log, trace), mo in zip(meta, res):
+        for i, (got, want) in enumerate(zip(trace, mo)):
+            ctx.count('corr:user-history-step')
+            w = sorted([[r_[0], r_[1], int(r_[2]), r_[3], r_[4], r_[5]] for r_ in want])
+            g = sorted(got)
+            if w != g:
+                ok = False
+                ctx.disagree('user table', {'history': log[:i + 1]}, w, g)
+                break
+        else:
+            if trace:
+                ctx.nontriv(('user-history', h, tuple(log)))
+    ctx.oblige('correspondence:PUT/POST /api/users-vs-UsersModel.ustep', ok and bool(reqs))
+
+
 def run(ctx):
     import logging
     logging.disable(logging.CRITICAL)
@@ -635,6 +772,9 @@ def run(ctx):
     env4 = build_env(ctx, 'badtoken')
     bad_token_suite(ctx, env4)
     env4.close()
+    env5 = build_env(ctx, 'userhist')
+    user_history_suite(ctx, env5)
+    env5.close()
 
 
 def replay(ctx, payload):
